@@ -11,6 +11,10 @@ package main
 //   selectors          valid / invalid / failing / control-flow root selectors
 //   panic-prone-operations  every operation of the language on edge operands in every evaluating context
 //   runaway-recursion  unbounded and very deep recursion of every call shape, padded so that a missing limit overflows the Go stack at once
+//   multibyte-text-operations  panic-prone operations on texts whose byte length and character count differ: printf with every
+//                      width of the window 0 .. byte length + 3, every string method, index and loop
+//   containers-changed-while-walked  the root array / for-in iterables shrunk, grown, cleared, reassigned, sorted through a second
+//                      reference while the rule driver or a loop walks them
 //
 // Every case compares class,out with the model; the oracle flags any class
 // outside ok/syntax/runtime/json by itself (core.go flags timeouts/crashes).
@@ -20,8 +24,10 @@ import (
 	"io"
 	"math/rand"
 	"os"
+	"strconv"
 	"strings"
 	"time"
+	"unicode/utf8"
 
 	lang "github.com/alligator/jqawk/src"
 )
@@ -1878,4 +1884,372 @@ func init() {
 	register(Family{Name: "runaway-recursion", Prop: "C01",
 		Rule: "58 shapes of recursion without a base case (direct, without parameters, as a statement, mutual of 2 and 3, through match expression / block bodies, literal and array-pattern cases, the match subject, nested matches, two different matches, for-in / while / for bodies and headers, method arguments and receivers, call and builtin arguments, index / member selectors read and assigned, literals, conditions, print) x 12 starting contexts (BEGIN, END, BEGINFILE, ENDFILE, rule body, rule pattern, match block / expression at rule level, wrapper function, wrapper function with a match, loop, after a -r selector). Late-pad form: every function counts its calls and from level 4200-4500 on (never reached when the limit works) the recursive call sits inside 150-300 nested operators (additions, array literal + index, negation, object literal + member), so that an unstopped recursion overflows the Go stack within a second; padded form (the seeded witness): 20-32 operators on every level; unpadded form; 9 count-down shapes at depths just within the limit (must complete with the exact value), just beyond it, 5000-8000 (thorough: 12000) (must be the runtime error, not a completed run); random shape x context x pad x pad start (quick: one rotating starting context per shape, a seventh of the padded forms, one context per count-down shape). Oracle: class runtime with exactly the prior output (class ok with the value within the limit); a crash / timeout / panic of the worker is a violation by itself; model comparison on class,out.",
 		Gen:  c01GenRunaway})
+}
+
+// ---------------------------------------------------------------------------
+// family 7: multi-byte text in every operation that counts, pads, slices or walks a string
+//
+// The Go code measures strings in bytes in some places (len, width arithmetic, indexing) and
+// in characters in others (for range, upper / lower, the lexer's rune decoding). Wherever two
+// such measures meet -- "pad when the character count is below the width, by width minus the
+// byte length" -- a text whose two lengths differ gives a negative Repeat count or an index
+// past the end. ASCII operands cannot expose that, so these operands are texts of 2-, 3- and
+// 4-byte characters, combining marks and invalid UTF-8 (program texts travel as hex), and the
+// widths and indices run through the whole window 0 .. byte length + 3.
+
+type c01Text struct {
+	name string
+	s    string
+}
+
+func c01Texts() []c01Text {
+	return []c01Text{
+		{"2-byte", "é"}, {"2-byte word", "Łódź"}, {"2-byte run", "ñüß"}, {"3-byte", "水"}, {"3-byte pair", "日本"}, {"4-byte", "😀"}, {"4-byte plane 15", "\U000f3000"},
+		{"4-byte pair", "𝒔𝒇"}, {"mixed widths", "aé水😀"}, {"combining mark", "e\u0301"}, {"two combining marks", "a\u0300\u0301b"}, {"zero-width joiner sequence", "\U0001f469\u200d\U0001f4bb"},
+		{"lone high byte", "\xff"}, {"high byte between letters", "a\xffb"}, {"truncated 3-byte", "\xe6\xb0"}, {"truncated 4-byte", "x\xf3\xb3\x80"}, {"overlong", "\xc0\xaf"},
+		{"surrogate", "\xed\xa0\x80"}, {"lone continuation bytes", "\x80\xbf\x80"}, {"beyond U+10FFFF", "\xf4\x90\x80\x80"}, {"BOM first", "\ufeffk"}, {"NUL and é", "\x00é"},
+		{"replacement character", "\ufffd"}, {"long 3-byte run", strings.Repeat("語", 12)},
+	}
+}
+
+// c01TextCase: one program; want != nil gives the exact expected stdout (implementation-only oracle)
+func c01TextCase(emit func(Case), prog string, files []File, row, col, probe string, want *string) {
+	emit(Case{Req: RunReq(prog, nil, files, false), Fields: c01Fields,
+		Meta: metaProg(prog, "probe", probe, "row", row, "col", col),
+		Oracle: func(i Resp) string {
+			if w := c01ClassOracle(i); w != "" {
+				return w
+			}
+			if i["class"] == "syntax" {
+				return "generator: the program was rejected: " + i["msg"]
+			}
+			if want != nil && (i["class"] != "ok" || string(i.Bytes("out")) != *want) {
+				return fmt.Sprintf("expected class ok and stdout %q, got class %s stdout %q", short(*want), i["class"], short(string(i.Bytes("out"))))
+			}
+			return ""
+		}, NonTrivial: func(i Resp) bool { return i["class"] == "ok" || i["class"] == "runtime" }})
+}
+
+func c01GenMultibyte(r *rand.Rand, tier string, emit func(Case)) {
+	texts := c01Texts()
+	// how the text reaches the operation
+	type source struct {
+		name string
+		wrap func(t string, body string) (prog string, files []File, ok bool) // body uses T for the text
+	}
+	sources := []source{
+		{"literal", func(t, body string) (string, []File, bool) {
+			return "BEGIN {\n" + strings.ReplaceAll(body, "§T", mustStrLit(t)) + "\n}\n", nil, true
+		}},
+		{"variable", func(t, body string) (string, []File, bool) {
+			return "BEGIN {\nt = " + mustStrLit(t) + "\n" + strings.ReplaceAll(body, "§T", "t") + "\n}\n", nil, true
+		}},
+		{"parameter, called from a rule", func(t, body string) (string, []File, bool) {
+			return "function op(t) {\n" + strings.ReplaceAll(body, "§T", "t") + "\nreturn t\n}\n{ op(" + mustStrLit(t) + ") }\nEND { print 'end' }\n", []File{c01F("in.json", "[1, 2]")}, true
+		}},
+		{"document field", func(t, body string) (string, []File, bool) {
+			if !utf8.ValidString(t) || strings.ContainsRune(t, 0) {
+				return "", nil, false // a JSON text cannot carry these bytes
+			}
+			return "{\n" + strings.ReplaceAll(body, "§T", "$.t") + "\n}\n", []File{c01F("in.json", `{"t": `+jsonString(t)+`}`)}, true
+		}},
+		{"concatenation", func(t, body string) (string, []File, bool) {
+			if len(t) < 2 {
+				return "", nil, false
+			}
+			cut := 1 + len(t)/2 // often inside a character
+			return "BEGIN {\nt = " + mustStrLit(t[:cut]) + " + " + mustStrLit(t[cut:]) + "\n" + strings.ReplaceAll(body, "§T", "t") + "\n}\n", nil, true
+		}},
+	}
+	k := r.Intn(100)
+	src := func() source { k++; return sources[k%len(sources)] }
+	emitBody := func(t c01Text, body, row, col string, want *string) {
+		for tries := 0; tries < len(sources); tries++ {
+			s := src()
+			if want != nil && s.name == "parameter, called from a rule" {
+				continue // runs twice: the expected text below is for one run
+			}
+			if prog, files, ok := s.wrap(t.s, body); ok {
+				c01TextCase(emit, prog, files, row, col, t.name+" text ("+fmt.Sprintf("%q", t.s)+") through a "+s.name+": "+body, want)
+				return
+			}
+		}
+	}
+	// 1. printf: every width of the window, both signs, zero padded, the three verbs, the text as the
+	//    argument, inside a container (for %v), and as literal text of the format around the directive
+	for _, t := range texts {
+		maxW := len(t.s) + 3
+		if tier != "thorough" && maxW > 16 {
+			maxW = 16
+		}
+		for w := 0; w <= maxW; w++ {
+			for _, sign := range []string{"", "-", "0", "-0"} {
+				if w == 0 && sign != "" && sign != "-" {
+					continue
+				}
+				spec := sign + strconv.Itoa(w)
+				for _, verb := range []string{"s", "v", "f"} {
+					format := "[%" + spec + verb + "]\n"
+					want, ok, _ := c18Ref(format, []c18Arg{c18Str(t.s)})
+					var wp *string
+					if ok {
+						wp = &want
+					}
+					emitBody(t, "printf("+mustStrLit(format)+", §T)", "printf %"+verb, "width "+sign+"N", wp)
+				}
+				if tier == "thorough" || (w+len(sign))%3 == 0 {
+					inArr := "[" + `"` + t.s + `"` + "]"
+					wantArr := "<" + c18PadTo2(inArr, w, sign) + ">\n"
+					var wp *string
+					if !strings.ContainsAny(t.s, "\"\\") {
+						wp = &wantArr
+					}
+					emitBody(t, "printf('<%"+spec+"v>\\n', [§T])", "printf %v of a container", "width "+sign+"N", wp)
+					emitBody(t, "printf('%"+spec+"v|%"+spec+"s|\\n', {k: §T}, §T + §T)", "printf %v of a container", "width "+sign+"N", nil)
+					if !strings.ContainsAny(t.s, "%'\"") {
+						emitBody(t, "printf('"+t.s+"%"+spec+"s"+t.s+"%"+spec+"v\\n', 'ab', 7)", "printf, the text in the format", "width "+sign+"N", nil)
+					}
+				}
+			}
+		}
+		// the width itself computed from the text's length, the text as the whole format
+		emitBody(t, "printf('%' + §T.length() + 's|\\n', §T)", "printf, computed width", "", nil)
+		emitBody(t, "printf('%-' + (§T.length() - 1) + 'v|\\n', §T)", "printf, computed width", "", nil)
+		emitBody(t, "n = 0\nfor (c in §T) n++\nprintf('%' + n + 's|%-' + (n + 1) + 'v|\\n', §T, §T)", "printf, computed width", "character count", nil)
+		emitBody(t, "printf(§T)\nprintf(§T + '%s', §T)\nprintf(§T + '%5')", "printf, the text as the format", "", nil)
+	}
+	// 2. every string method, index, loop and operator on such texts; indices through the whole window
+	ops := []string{
+		"print §T.length()", "print §T.upper()", "print §T.lower()", "print §T.upper().length(), §T.lower().length()", "print §T.upper().lower() == §T.lower()",
+		"print §T.split('')", "print §T.split('').length()", "print §T.split(§T)", "print §T.split(§T[0])", "print §T.split(§T[§T.length() - 1])", "print (§T + ',' + §T).split(',')",
+		"print §T.split('\xc3')", "print §T.split('\x80')", "print §T.split('é')", "print (§T + §T).split(§T).length()",
+		"for (c in §T) print c, c.length()", "for (c, i in §T) print i, c, §T[i]", "for (c, i in §T) { printf('%3s|%-3v|', c, c)\n print i }", "for (c in §T.split('')) printf('%2s.', c)\nprint ''",
+		"for (c in §T.upper()) print c", "for (c, i in §T) { for (d in c) print i, d, d.length() }",
+		"n = 0\nfor (c in §T) n++\nprint n, §T.length(), n <= §T.length()", "i = 0\nwhile (i < §T.length()) { print i, §T[i], §T[i].length()\n i++ }",
+		"print §T == §T, §T < 'z', §T > 'a', §T + §T, §T ~ §T, §T ~ /./, §T ~ /^.$/, §T ~ /^..$/, §T !~ /\\w/", "print [§T, 'z', 'a', §T + 'a'].sort()", "print [§T].contains(§T), [§T + 'x'].contains(§T)",
+		"o = {}\no[§T] = 1\no[§T + §T] = 2\nprint o, o[§T], o.length()\nfor (k, v in o) print k, v, k.length()", "print json(§T), json([§T]), json({k: §T})", "print num(§T), num(§T) is number",
+		"print match (§T) { 'é' => 1, '水' => 2, s => s.length() }", "x = [§T, [§T], {k: §T}]\nprint x, x[1][0].length(), x[2].k.upper()", "print §T[0], §T[1], §T[0] + §T[1], (§T[0] + §T[1]).length()",
+		"print §T[0].upper(), §T[0].lower(), §T[0].split(''), §T[0] ~ /./", "s = ''\nfor (c in §T) s = c + s\nprint s, s.length(), s.upper()", "print (§T + §T + §T).upper().split(§T.upper()).length()",
+	}
+	for _, t := range texts {
+		for _, op := range ops {
+			emitBody(t, op, "text operation", strings.Fields(strings.ReplaceAll(op, "§T", "T") + " x")[1], nil)
+		}
+		for i := -2; i <= len(t.s)+3; i++ {
+			if tier != "thorough" && i > 14 {
+				break
+			}
+			emitBody(t, fmt.Sprintf("print §T[%d]\nprint §T[%d].length(), §T[%d].upper()", i, i, i), "text index", "", nil)
+		}
+		emitBody(t, "§T[0] = 'x'", "text index", "store", nil)
+	}
+	// 3. random combinations: two texts, an operation, a printf with a width from the window
+	n := tierN(tier, 1500, 40000)
+	for i := 0; i < n; i++ {
+		a, b := pick(r, texts), pick(r, texts)
+		op := pick(r, ops)
+		w := r.Intn(len(a.s) + len(b.s) + 4)
+		spec := pick(r, []string{"", "-", "0", "-0"}) + strconv.Itoa(w)
+		body := "u = §T + " + mustStrLit(b.s) + "\nprintf('%" + spec + pick(r, []string{"s", "v"}) + "|%" + spec + "v|\\n', u, [u, " + mustStrLit(b.s) + "])\n" + op
+		if chance(r, 0.15) {
+			body = op + "\n" + strings.ReplaceAll(body, "u = §T + ", "u = §T.upper() + ")
+		}
+		emitBody(a, body, "random", "", nil)
+	}
+}
+
+// c18PadTo2 pads like printf does: by bytes, sign "-" = on the right, "0" = with zeros
+func c18PadTo2(s string, w int, sign string) string {
+	if len(s) >= w {
+		return s
+	}
+	pad := " "
+	if strings.Contains(sign, "0") {
+		pad = "0"
+	}
+	if strings.HasPrefix(sign, "-") {
+		return s + strings.Repeat(pad, w-len(s))
+	}
+	return strings.Repeat(pad, w-len(s)) + s
+}
+
+func init() {
+	register(Family{Name: "multibyte-text-operations", Prop: "C01",
+		Rule: "panic-prone operations, widened to texts whose byte length and character count differ: 24 texts (2-, 3-, 4-byte characters alone, in words and mixed, combining marks, a ZWJ sequence, BOM, NUL, U+FFFD, invalid UTF-8: lone high and continuation bytes, truncated 3- and 4-byte sequences, overlong, surrogate, beyond U+10FFFF; a 36-byte run) reaching the operation as a literal, a variable, a parameter of a function called from a rule, a document field (valid texts) and a concatenation cut inside a character; (1) printf with EVERY width 0 .. byte length + 3, plain / negative / zero-padded / both, x %s %v %f with the text as the argument (closed form: the reference formatter of C18, padding by bytes), inside an array and an object, doubled, as literal text around directives, as the whole format, and with widths computed from length() and from the character count; (2) every string method (length, upper, lower, split by '' / itself / its first and last byte / a lone lead or continuation byte), for-in with and without index (nested, over split and upper results, feeding printf), indexing at every position -2 .. byte length + 3 and in a while loop, comparison, concatenation, regex matching against itself and . patterns, sort, contains, object keys, json(), num(), match, store into a character; (3) random pairs of texts x an operation x a printf with a width from the joint window. Oracle: class in ok|runtime (a Go panic is class panic; syntax = generator bug), exact stdout where the closed form exists; model comparison on class,out (upper / lower of non-ASCII text is unmodelled: oracle only)",
+		Gen:  c01GenMultibyte})
+}
+
+// ---------------------------------------------------------------------------
+// family 8: containers changed while something walks them
+//
+// The rule driver walks the root array, for-in walks its iterable; both are Go loops over a
+// slice that the program can reach through a second reference (arrays are shared, not
+// copied): BEGINFILE { all = $ } keeps the root, a parameter keeps the caller's array. A loop
+// that trusts a length taken earlier, or indexes the live slice, panics (index out of range)
+// as soon as the body shrinks the array; one that follows the live length never ends when
+// the body grows it. So: every holder of such a reference x every way of shrinking, growing,
+// clearing, reassigning, overwriting or sorting through it x when (every round, one round,
+// the first, the last).
+//
+// The documented modelling gap (DESIGN.md section 2): the model walks the cell list taken at
+// loop entry, Go the slice header taken at loop entry -- they differ when a pop() is followed
+// by a push() on the walked array (the append overwrites a slot the loop still visits). A
+// program whose changes mix removing and adding on a walked array is therefore run on the
+// implementation only (oracle: class ok or runtime, never a panic, hang or crash); programs that
+// only remove, or only add, are also compared with the model.
+
+type c01Change struct {
+	text string // §R is the reference
+	kind int    // bit set: 1 removes, 2 adds, 4 stores at a fixed index (adds when the array has become shorter than that)
+}
+
+var c01Changes = []c01Change{
+	{"§R.pop()", 1}, {"§R.popfirst()", 1}, {"§R.pop()\n§R.pop()", 1}, {"§R.popfirst()\n§R.pop()", 1}, {"gone = §R.pop()\nprint 'gone', gone", 1},
+	{"cn = 0\nwhile (§R.length() > 0 && cn < 50) { §R.pop()\n cn++ }", 1}, {"cn = 0\nwhile (§R.length() > 1 && cn < 50) { §R.popfirst()\n cn++ }", 1},
+	{"§R.pop().k = 1", 1}, {"print §R.popfirst(), §R.length()", 1},
+	{"§R.push(9)", 2}, {"§R.push(§R.length())", 2}, {"§R.push([§R.length()])", 2}, {"§R[§R.length()] = 7", 2}, {"§R[§R.length() + 2] = 'far'", 2}, {"§R.push(§R)", 2},
+	{"§R.push(1)\n§R.push(2)\n§R.push(3)\n§R.push(4)\n§R.push(5)", 2}, {"§R.push({k: §R.length()}).push(0)", 2},
+	{"§R[0] = 'first'", 4}, {"§R[§R.length() - 1] = 'last'", 4}, {"§R[1].k = 'member'", 4}, {"§R[0] = §R", 4}, {"other = §R\nother[0] = 'via other'", 4},
+	{"§R = []", 0}, {"§R = 5", 0}, {"§R = [§R, 1]", 0}, {"§R.sort()", 0}, {"§R = §R.sort()", 0},
+	{"print §R.sort(), §R.contains(2), §R.length()", 0}, {"srt = §R.sort()\nsrt.pop()\nsrt[0] = 'copy'", 0}, {"print json(§R)", 0}, {"print §R[0], §R[§R.length() - 1], §R[§R.length()]", 0},
+}
+
+// c01Holder: a program skeleton with one or two slots §1 §2 for changes; ref is what §R becomes
+type c01Holder struct {
+	name string
+	prog string
+	ref  string
+	doc  string
+	sel  string
+}
+
+var c01Holders = []c01Holder{
+	{"rule driver, root kept by BEGINFILE", "BEGINFILE { all = $ }\n{ print 'R', $index, $\n§1\n}\nENDFILE { print 'EF', all, $ }\nEND { print 'E', all }\n", "all", "[1, 2, 3, 4, 5]", ""},
+	{"rule driver, two rules and a pattern", "BEGINFILE { all = $ }\n§W { print 'A', $\n§1\n}\n{ print 'B', $index, $\n§2\n}\nEND { print all.length() }\n", "all", "[1, 2, 3, 4]", ""},
+	{"rule driver, the change after next-free bookkeeping, objects as records", "BEGINFILE { all = $ }\n{ seen++\nprint $.k\n§1\nprint all.length()\n}\nEND { print seen, all }\n", "all", `[{"k": 1}, {"k": 2}, {"k": 3}, {"k": 4}]`, ""},
+	{"rule driver, root kept inside a container", "BEGINFILE { box = {r: $, n: 0} }\n{ box.n++\n§1\nprint $, box.n\n}\nEND { print box }\n", "box.r", "[1, 2, 3, 4, 5, 6]", ""},
+	{"rule driver, the change made by a function given the root", "function chg(arr, i) {\n§1\nreturn arr.length()\n}\nBEGINFILE { all = $ }\n{ print $, chg(all, $index) }\nEND { print all }\n", "arr", "[1, 2, 3, 4]", ""},
+	{"rule driver, the change made by a function in the pattern", "function chg(arr) {\n§1\nreturn 1\n}\nBEGINFILE { all = $ }\nchg(all) { print 'hit', $index, $ }\nEND { print all }\n", "arr", "[1, 2, 3, 4]", ""},
+	{"rule driver, two files", "BEGINFILE { all = $ }\n{ print $file, $\n§1\n}\nENDFILE { print all }\n", "all", "[1, 2, 3]", ""},
+	{"rule driver, root chosen by a selector", "BEGINFILE { all = $ }\n{ print $\n§1\n}\nEND { print all }\n", "all", `{"items": [1, 2, 3, 4]}`, "$.items"},
+	{"rule driver, $ assigned in BEGINFILE", "BEGINFILE { $ = [7, 8, 9, 10]\nall = $ }\n{ print $\n§1\n}\nEND { print all }\n", "all", "[1]", ""},
+	{"rule driver, the root changed from a nested for-in over it", "BEGINFILE { all = $ }\n{ for (x in all) { if (x == $) {\n§1\n} }\nprint $ }\nEND { print all }\n", "all", "[1, 2, 3, 4]", ""},
+	{"for-in over $ in BEGINFILE", "BEGINFILE { for (x, i in $) { print i, x\n§1\n}\nprint $ }\n{ print 'R', $ }\n", "$", "[1, 2, 3, 4, 5]", ""},
+	{"for-in over an array record", "{ for (x, i in $) { print i, x\n§1\n}\nprint $ }\n", "$", "[[1, 2, 3, 4], [5, 6], []]", ""},
+	{"for-in over a local array", "BEGIN { a = [1, 2, 3, 4, 5]\nfor (x, i in a) { print i, x\n§1\n}\nprint a }\n", "a", "", ""},
+	{"for-in over a local array, changed through an alias", "BEGIN { a = [1, 2, 3, 4]\nb = a\nfor (x in a) { print x\n§1\n}\nprint a, b }\n", "b", "", ""},
+	{"for-in in a function over its parameter", "function walk(arr) { for (x, i in arr) { print i, x\n§1\n}\nreturn arr }\nBEGIN { a = [1, 2, 3, 4]\nprint walk(a), a }\n", "arr", "", ""},
+	{"for-in in a function, the caller's array changed by a second function", "function chg(q) {\n§1\nreturn 0 }\nfunction walk(arr) { for (x in arr) { print x, chg(arr) }\nreturn arr.length() }\nBEGIN { a = [1, 2, 3, 4]\nprint walk(a), a }\n", "q", "", ""},
+	{"nested for-in over the same array", "BEGIN { a = [1, 2, 3]\nfor (x in a) { for (y in a) { print x, y\n§1\n} }\nprint a }\n", "a", "", ""},
+	{"for-in over a member array of an object", "BEGIN { o = {list: [1, 2, 3, 4], n: 0}\nfor (x in o.list) { o.n++\n§1\nprint x, o.n }\nprint o }\n", "o.list", "", ""},
+	{"for-in over an element of an array of arrays", "BEGIN { m = [[1, 2, 3], [4, 5, 6]]\nfor (row in m) { for (x in m[0]) { print x\n§1\n} }\nprint m }\n", "m[0]", "", ""},
+	{"for-in in END over the kept root", "BEGINFILE { all = $ }\nEND { for (x, i in all) { print i, x\n§1\n}\nprint all }\n", "all", "[1, 2, 3, 4]", ""},
+	{"while loop that trusts a length taken before", "BEGIN { a = [1, 2, 3, 4, 5]\nn = a.length()\nfor (i = 0; i < n; i++) { print i, a[i]\n§1\n}\nprint a }\n", "a", "", ""},
+	{"match binding of the walked array", "BEGIN { a = [1, 2, 3, 4]\nfor (x in a) { match (a) { [p, q] => { print 'two', p, q }, whole => {\n§1\n} }\nprint x }\nprint a }\n", "whole", "", ""},
+	{"for-in over the keys of an object that gains members", "BEGIN { o = {a: [1, 2], b: [3]}\nfor (k, v in o) { print k, v\no[k + k] = v\n§1\n}\nprint o }\n", "v", "", ""},
+	{"for-in over a string while the variable is reassigned", "BEGIN { s = 'héllo'\nlist = [1, 2, 3]\nfor (c in s) { s = s + c\n§1\nprint c }\nprint s, list }\n", "list", "", ""},
+}
+
+var c01Whens = []struct{ name, pre, post string }{
+	{"every round", "", ""},
+	{"first round only", "if (!did) { did = 1\n", "\n}"},
+	{"second round on", "rounds++\nif (rounds >= 2) {\n", "\n}"},
+	{"one round in the middle", "rounds++\nif (rounds == 2) {\n", "\n}"},
+	{"every other round", "rounds++\nif (rounds % 2 == 0) {\n", "\n}"},
+}
+
+// c01Blowup: sort() clones its receiver deeply; together with a change that puts the array into
+// itself (or wraps it) every round the clone doubles per round -- slow, and beside the point
+func c01Blowup(a, b c01Change) bool {
+	nests := func(c c01Change) bool {
+		return strings.Contains(c.text, "push(§R)") || strings.Contains(c.text, "[§R, 1]") || strings.Contains(c.text, "= §R")
+	}
+	sorts := func(c c01Change) bool { return strings.Contains(c.text, "sort()") || strings.Contains(c.text, "json(") }
+	return nests(a) && sorts(b) || nests(b) && sorts(a)
+}
+
+func c01GenWalked(r *rand.Rand, tier string, emit func(Case)) {
+	one := func(h c01Holder, c1, c2 c01Change, when int, wantJSON bool) {
+		w := c01Whens[when]
+		slot := func(c c01Change) string {
+			return w.pre + strings.ReplaceAll(c.text, "§R", h.ref) + w.post
+		}
+		prog := strings.ReplaceAll(h.prog, "§1", slot(c1))
+		second := strings.Contains(prog, "§2")
+		prog = strings.ReplaceAll(prog, "§2", strings.ReplaceAll(c2.text, "§R", h.ref))
+		prog = strings.ReplaceAll(prog, "§W", pick(r, []string{"", "$ % 2 == 0", "$index > 0", "all.length() > 2"}))
+		var files []File
+		if h.doc != "" {
+			files = []File{c01F("in.json", h.doc)}
+			if strings.Contains(h.name, "two files") {
+				files = append(files, c01F("b.json", "[4, 5, 6, 7]"))
+			}
+		}
+		var sels []string
+		if h.sel != "" {
+			sels = []string{h.sel}
+		}
+		mask := c1.kind
+		if second {
+			mask |= c2.kind
+		}
+		// after a removal, anything that may append (a push, a store at or beyond the end) hits the gap
+		implOnly := mask&1 != 0 && mask&6 != 0
+		fields := c01Fields
+		if wantJSON && files != nil {
+			fields = c01FieldsJSON
+		} else {
+			wantJSON = false
+		}
+		col := map[int]string{0: "neutral", 1: "removes", 2: "adds", 4: "stores", 6: "adds"}[mask]
+		if implOnly {
+			col = "removes and adds (implementation only)"
+		}
+		emit(Case{Req: RunReq(prog, sels, files, wantJSON), Fields: fields, ImplOnly: implOnly,
+			Meta: metaProg(prog, "holder", h.name, "change", c1.text, "when", w.name, "input", h.doc, "row", h.name, "col", col),
+			Oracle: func(i Resp) string {
+				if i["class"] != "ok" && i["class"] != "runtime" {
+					return "C01: a program that changes a container while it is walked ended in class " + i["class"] + " (msg=" + i["msg"] + "): must be success or a runtime error"
+				}
+				return ""
+			}, NonTrivial: func(i Resp) bool { return i["class"] == "ok" || i["class"] == "runtime" }})
+	}
+	// systematic: every holder x every change x when (quick: two of the five in rotation)
+	k := r.Intn(100)
+	for _, h := range c01Holders {
+		for _, c := range c01Changes {
+			for when := range c01Whens {
+				if tier != "thorough" && (when+k)%5 > 1 {
+					continue
+				}
+				c2 := pick(r, c01Changes)
+				for c01Blowup(c, c2) {
+					c2 = pick(r, c01Changes)
+				}
+				one(h, c, c2, when, (k+when)%4 == 0)
+			}
+			k++
+		}
+	}
+	// random: two changes joined in one slot (same kind: compared with the model; mixed: implementation only)
+	n := tierN(tier, 2500, 60000)
+	for i := 0; i < n; i++ {
+		h := pick(r, c01Holders)
+		a, b := pick(r, c01Changes), pick(r, c01Changes)
+		if c01Blowup(a, b) {
+			continue
+		}
+		joined := c01Change{a.text + "\n" + b.text, a.kind | b.kind}
+		c2 := pick(r, c01Changes)
+		for c01Blowup(joined, c2) {
+			c2 = pick(r, c01Changes)
+		}
+		one(h, joined, c2, r.Intn(len(c01Whens)), chance(r, 0.2))
+	}
+}
+
+func init() {
+	register(Family{Name: "containers-changed-while-walked", Prop: "C01",
+		Rule: "24 holders of a second reference to a container that a Go loop is walking -- the rule driver's root array (kept by BEGINFILE { all = $ }, inside a container, handed to a function called from a rule body or from a pattern, with several rules, two files, a -r selector, $ assigned in BEGINFILE, changed from a nested for-in), for-in over $ in BEGINFILE, over an array record, over local arrays (directly, through an alias, in a function over its parameter, changed by a second function, nested over the same array, member and element arrays, in END over the kept root), a counting loop that trusts a length taken before, a match binding, object-key and string loops -- x 31 changes through that reference (pop, popfirst, several, clear by popping, pop().k = 1; push of numbers / arrays / itself / five at once, store at and beyond the end; overwrite first / last / a member, rebind to [] / 5 / a wrapper, sort, sorted copies, aliases, self-reference, json) x when (every round, first only, second on, one in the middle, every other); quick: two of the five timings per pair in rotation; plus random pairs of changes. Programs that only remove or only add are compared with the model on class,out(,json); programs that remove AND add on a walked array (the documented modelling gap: Go walks the slice header, the model the cell list) run on the implementation only. Oracle: class ok or runtime -- never a panic (index out of range), crash or hang",
+		Gen:  c01GenWalked})
 }
